@@ -95,3 +95,90 @@ Proof.
   { destruct (Tail 4%nat ltac:(lia) eq_refl) as [st' [X Y]]. change (Z.of_nat 4) with 4 in X. rewrite X, Y. reflexivity. }
   destruct (Tail 1%nat ltac:(lia) eq_refl) as [st' [X Y]]. change (Z.of_nat 1) with 1 in X. rewrite X, Y. reflexivity.
 Qed.
+
+(* ------------------------------------------------------------------ uc_dec (regex.c) *)
+Lemma rdk_in w (s : bytes) k : (k <= length s)%nat -> rdk w s k = ReSyntax.Ok (nthb s k).
+Proof.
+  intro H. unfold rdk, nthb. destruct (nth_error s k) as [x|] eqn:E.
+  - rewrite (nth_error_nth s k 0%N E). reflexivity.
+  - apply nth_error_None in E. replace (Nat.eqb k (length s)) with true by (symmetry; apply Nat.eqb_eq; lia).
+    rewrite nth_overflow by lia. reflexivity.
+Qed.
+Lemma ucl_scan_le k : forall r i, (ucl_scan k r i <= i + length r)%nat.
+Proof.
+  induction k as [|k IH]; intros r i; cbn [ucl_scan]; [lia|]. destruct r as [|x r]; cbn [length]; [lia|].
+  destruct (x =? 0)%N; [lia|]. specialize (IH r (S i)). lia.
+Qed.
+(* the sequence uc_len reports lies inside the string *)
+Lemma re_uclen_at_in (s : bytes) o : (o <= length s)%nat -> (o + re_uclen_at s o <= length s)%nat.
+Proof.
+  intro Ho. unfold re_uclen_at. destruct (Nat.eq_dec o (length s)) as [E|E].
+  - rewrite skipn_end by lia. cbn. lia.
+  - rewrite (skipn_cons_nthb s o) by lia. cbn [re_uclen].
+    destruct (negb _); [destruct (_ =? 0)%N; lia|].
+    pose proof (ucl_scan_le (re_ucfull (nthb s o) - 1) (skipn (S o) s) 1) as L. rewrite skipn_length in L. lia.
+Qed.
+
+Lemma lor_trunc c : Z.lor 2097152 (Z.of_N c) = Z.of_N (N.lor 2097152 c).
+Proof. exact (of_N_lor 2097152 c). Qed.
+
+Theorem tr_re_uc_dec m b s o d fuel :
+  str_at m b s -> bytes_lt256 s -> (o <= length s)%nat -> (4 <= fuel)%nat ->
+  exists v, re_ucdec s o = ReSyntax.Ok v /\
+  callf cprog fuel (S (S d)) F_re_uc_dec [VPtr b (Z.of_nat o)] m = Ok (VInt (Z.of_N v), m).
+Proof.
+  intros Hs H256 Ho Hf. enter F_re_uc_dec cf_re_uc_dec. xstep.
+  replace (Z.of_nat o + 1 * 0) with (Z.of_nat o) by lia.
+  xload Hs H256 o. pose proof (nthb_lt256 s o H256) as Hc.
+  pose proof (nthb_lt256 s (o + 1) H256) as H1. pose proof (nthb_lt256 s (o + 2) H256) as H2.
+  pose proof (nthb_lt256 s (o + 3) H256) as H3.
+  pose proof (re_uclen_at_in s o Ho) as Hin.
+  unfold re_ucdec. rewrite (rdk_in _ s o Ho). cbn [ReSyntax.bind].
+  set (c := nthb s o) in *. set (b1 := nthb s (o + 1)) in *. set (b2 := nthb s (o + 2)) in *. set (b3 := nthb s (o + 3)) in *.
+  rewrite (cc_c0 c Hc).
+  destruct (negb (bit c 128 && bit c 64)) eqn:E1; xstep; [eexists; split; reflexivity|].
+  rewrite (tr_re_uc_len m b s o d fuel Hs H256 Ho Hf). xstep.
+  rewrite (cc_20 c Hc), (cc_10 c Hc), (cc_08 c Hc).
+  unfold re_ucfull. rewrite E1.
+  destruct (negb (bit c 32)) eqn:E2; xstep.
+  { destruct (Nat.ltb_spec (re_uclen_at s o) 2) as [L|L];
+      (destruct (Z.ltb_spec (Z.of_nat (re_uclen_at s o)) 2) as [L'|L']; [|lia]) || (destruct (Z.ltb_spec (Z.of_nat (re_uclen_at s o)) 2) as [L'|L']; [lia|]); xstep.
+    - rewrite (lor_trunc c). eexists; split; reflexivity.
+    - repeat (progress (rewrite ?(cc_20 c Hc), ?E2; xstep)).
+      rewrite (rdk_in _ s (o + 1)) by lia. cbn [ReSyntax.bind].
+      fold_shl. rewrite (sh_1f_6 c Hc). xstep.
+      rewrite (load_str m b s _ (o + 1) Hs) by lia. xstep. fold b1.
+      rewrite (sx_3f b1 H1), of_N_lor. eexists; split; reflexivity. }
+  destruct (negb (bit c 16)) eqn:E3; xstep.
+  { destruct (Nat.ltb_spec (re_uclen_at s o) 3) as [L|L];
+      (destruct (Z.ltb_spec (Z.of_nat (re_uclen_at s o)) 3) as [L'|L']; [|lia]) || (destruct (Z.ltb_spec (Z.of_nat (re_uclen_at s o)) 3) as [L'|L']; [lia|]); xstep.
+    - rewrite (lor_trunc c). eexists; split; reflexivity.
+    - repeat (progress (rewrite ?(cc_20 c Hc), ?(cc_10 c Hc), ?E2, ?E3; xstep)).
+      rewrite (rdk_in _ s (o + 1)), (rdk_in _ s (o + 2)) by lia. cbn [ReSyntax.bind].
+      fold_shl. rewrite (sh_0f_12 c Hc). xstep.
+      rewrite (load_str m b s _ (o + 1) Hs) by lia. xstep. fold b1. rewrite (sx_3f b1 H1).
+      fold_shl. rewrite (sh_3f_6 b1 H1). xstep.
+      rewrite (load_str m b s _ (o + 2) Hs) by lia. xstep. fold b2.
+      rewrite (sx_3f b2 H2), !of_N_lor. eexists; split; reflexivity. }
+  destruct (negb (bit c 8)) eqn:E4; xstep.
+  { destruct (Nat.ltb_spec (re_uclen_at s o) 4) as [L|L];
+      (destruct (Z.ltb_spec (Z.of_nat (re_uclen_at s o)) 4) as [L'|L']; [|lia]) || (destruct (Z.ltb_spec (Z.of_nat (re_uclen_at s o)) 4) as [L'|L']; [lia|]); xstep.
+    - rewrite (lor_trunc c). eexists; split; reflexivity.
+    - repeat (progress (rewrite ?(cc_20 c Hc), ?(cc_10 c Hc), ?(cc_08 c Hc), ?E2, ?E3, ?E4; xstep)).
+      rewrite (rdk_in _ s (o + 1)), (rdk_in _ s (o + 2)), (rdk_in _ s (o + 3)) by lia. cbn [ReSyntax.bind].
+      fold_shl. rewrite (sh_07_18 c Hc). xstep.
+      rewrite (load_str m b s _ (o + 1) Hs) by lia. xstep. fold b1. rewrite (sx_3f b1 H1).
+      fold_shl. rewrite (sh_3f_12 b1 H1). xstep.
+      rewrite (load_str m b s _ (o + 2) Hs) by lia. xstep. fold b2. rewrite (sx_3f b2 H2).
+      fold_shl. rewrite (sh_3f_6 b2 H2). xstep.
+      rewrite (load_str m b s _ (o + 3) Hs) by lia. xstep. fold b3.
+      rewrite (sx_3f b3 H3), !of_N_lor. eexists; split; reflexivity. }
+  (* 0xf8..0xff: uc_len is 1 *)
+  assert (re_uclen_at s o = 1%nat) as L1.
+  { unfold re_uclen_at. assert (c <> 0%N) as Hnz by (intro Z0; rewrite Z0 in E1; cbn in E1; discriminate).
+    pose proof (nthb_nz_lt s o Hnz). rewrite (skipn_cons_nthb s o) by lia. cbn [re_uclen]. fold c. rewrite E1.
+    unfold re_ucfull. rewrite E1, E2, E3, E4. reflexivity. }
+  rewrite L1. cbn [Nat.ltb Nat.leb Z.of_nat Pos.of_succ_nat]. xstep.
+  repeat (progress (rewrite ?(cc_20 c Hc), ?(cc_10 c Hc), ?(cc_08 c Hc), ?E2, ?E3, ?E4; xstep)).
+  eexists; split; reflexivity.
+Qed.
